@@ -62,6 +62,26 @@ MUT = [
     ('C42-vacuum-reads-all', 'C42', M, "            .filter(|frame| frame.status == FrameStatus::Active)\n            .cloned()\n            .collect();\n", "            .cloned()\n            .collect();\n", 'EQUIVALENT: vacuum also reads the payloads of deleted frames (they are never written back: the write loop tests Active) - the check must stay silent'),
     ('C42-offset-after-advance', 'C42', M, "                    frame.payload_offset = cursor;\n                    frame.payload_length = bytes.len() as u64;\n                    cursor += bytes.len() as u64;", "                    frame.payload_length = bytes.len() as u64;\n                    cursor += bytes.len() as u64;\n                    frame.payload_offset = cursor;", 'vacuum records the end of the payload as its offset'),
     ('C23-hashmap-persisted', 'C23', 'src/types/memories_track.rs', "    entries: BTreeMap<String, Vec<MemoryCardId>>,", "    entries: HashMap<String, Vec<MemoryCardId>>,", 'SlotIndex goes back to a serde-serialised HashMap (the state before fix 00289e5)'),
+    # ---- equivalent edits: every check must stay silent (property ALL = run all quick checks)
+    ('EQ-closure-bound-first', 'ALL', M, "        self.with_staging_lock(move |mem| mem.commit_from_records(records, mode))",
+     "        let staged_commit = move |mem: &mut Self| mem.commit_from_records(records, mode);\n        self.with_staging_lock(staged_commit)",
+     'EQUIVALENT: commit_with_options binds the staging closure to a local first'),
+    ('EQ-rename-parent-seq', 'ALL', M, "parent_seq", "wal_sequence_of_parent", 'EQUIVALENT: put_internal/apply_records local parent_seq renamed everywhere (replace-all)'),
+    ('EQ-ticket-store-order', 'ALL', 'src/memvid/ticket.rs', "        self.toc.ticket_ref.capacity_bytes = ticket.capacity_bytes.unwrap_or(0);\n        self.toc.ticket_ref.issuer = ticket.issuer;\n        self.toc.ticket_ref.seq_no = ticket.seq_no;\n        self.toc.ticket_ref.expires_in_secs = ticket.expires_in_secs;\n        self.toc.ticket_ref.verified = false; // Unsigned tickets are not verified",
+     "        self.toc.ticket_ref.verified = false; // Unsigned tickets are not verified\n        self.toc.ticket_ref.expires_in_secs = ticket.expires_in_secs;\n        self.toc.ticket_ref.seq_no = ticket.seq_no;\n        self.toc.ticket_ref.issuer = ticket.issuer;\n        self.toc.ticket_ref.capacity_bytes = ticket.capacity_bytes.unwrap_or(0);",
+     'EQUIVALENT: apply_ticket stores the five ticket_ref fields in the opposite order (after the sequence test)'),
+    ('EQ-search-debug-lines', 'ALL', 'src/memvid/search/mod.rs', "        let start_time = Instant::now();\n        // parse_query can return structured tokens",
+     "        let start_time = Instant::now();\n        tracing::debug!(query = %request.query, top_k = request.top_k, \"search called\");\n        // parse_query can return structured tokens",
+     'EQUIVALENT: search logs its arguments'),
+    ('EQ-recover-header-reborrow', 'ALL', M, "        self.wal.record_checkpoint(&mut self.header)?;\n        crate::persist_header(&mut self.file, &self.header)?;\n        if !delta.is_empty() {",
+     "        {\n            let header = &mut self.header;\n            self.wal.record_checkpoint(header)?;\n        }\n        crate::persist_header(&mut self.file, &self.header)?;\n        if !delta.is_empty() {",
+     'EQUIVALENT: recover_wal passes the header through a local reborrow'),
+    ('EQ-vacuum-match-instead-of-if', 'ALL', M, "            if frame.status == FrameStatus::Active {\n                if let Some(bytes) = active_payloads.get(&frame.id) {",
+     "            if matches!(frame.status, FrameStatus::Active) {\n                if let Some(bytes) = active_payloads.get(&frame.id) {",
+     'EQUIVALENT: vacuum tests Active with matches! instead of =='),
+    ('EQ-single-file-iter', 'ALL', 'src/memvid/lifecycle.rs', "        let forbidden = [\"-wal\", \"-shm\", \"-lock\", \"-journal\"];\n        for suffix in forbidden {",
+     "        let forbidden = [\"-wal\", \"-shm\", \"-lock\", \"-journal\"];\n        for suffix in forbidden.iter().copied() {",
+     'EQUIVALENT: ensure_single_file iterates the array through iter().copied()'),
     ('C40-end-batch-order', 'C40', M, "        self.wal.flush()?;\n        self.wal.set_skip_sync(false);", "        self.wal.set_skip_sync(false);\n        self.wal.flush()?;",
      'EQUIVALENT: end_batch restores sync before flushing (flush syncs unconditionally) - the check must stay silent'),
 ]
@@ -90,13 +110,13 @@ def main():
             print('%-32s %-4s stale (anchor text not found)' % (mid, prop))
             continue
         try:
-            open(p, 'w').write(src.replace(old, new, 1))
+            open(p, 'w').write(src.replace(old, new) if 'replace-all' in what else src.replace(old, new, 1))
             b = sh('cd %s && CARGO_NET_OFFLINE=true cargo check --offline --lib -q 2>&1 | grep -E "^error" | head -3' % R)
             if b.stdout.strip():
                 res.append(dict(id=mid, property=prop, status='does-not-compile', what=what, out=b.stdout.strip()))
                 print('%-32s %-4s does not compile: %s' % (mid, prop, b.stdout.strip()[:120]))
                 continue
-            r = sh('cd /verif && ./check %s --tier quick' % prop)
+            r = sh('cd /verif && ./check %s --tier quick' % ('--all' if prop == 'ALL' else prop))
             fails = [l for l in r.stdout.splitlines() if l.startswith('FAIL ')]
             caught = r.returncode == 1 and any(l.startswith('VIOLATION ') for l in r.stdout.splitlines())
             equiv = what.startswith('EQUIVALENT')
